@@ -219,6 +219,33 @@ impl Check for C18 {
                 }
             }
         });
+        // (2') thorough: all ordered triples of blend modes in three consecutive draws
+        if deep {
+            let tsrc = [SrcSpec::Solid(0x80002040), SrcSpec::Solid(0xfe00fe7f), grad_sources()[0].clone()];
+            run.bound("mode triples", format!("28^3 ordered mode triples x {}^3 sources, alpha 0.5 / 1 / 0.75, fills over a 12x4 destination holding 12 values", tsrc.len()));
+            run.par(MODES.len() * MODES.len(), |s, l| {
+                let (m1, m2) = (MODES[s / MODES.len()], MODES[s % MODES.len()]);
+                for &m3 in MODES.iter() {
+                    for s1 in &tsrc {
+                        for s2 in &tsrc {
+                            for s3 in &tsrc {
+                                let scene = Scene {
+                                    w,
+                                    h,
+                                    dst: dst_cols(w, h, &VALS12, 5),
+                                    ops: vec![
+                                        Op::Fill(PathSpec::poly(&[(0., 0.), (12., 0.5), (0.25, 4.)]), s1.clone(), Opts { mode: m1, alpha: 0.5, aa: true }),
+                                        Op::FillRect(1.5, 0.25, 9.25, 3.5, s2.clone(), Opts { mode: m2, alpha: 1.0, aa: true }),
+                                        Op::Fill(PathSpec::poly(&[(12., 4.), (0., 3.5), (11.75, 0.)]), s3.clone(), Opts { mode: m3, alpha: 0.75, aa: true }),
+                                    ],
+                                };
+                                one(run, 300_000 + s, l, &scene, false);
+                            }
+                        }
+                    }
+                }
+            });
+        }
         // (4) conversions
         run.bound("conversions", "from_unpremultiplied_argb and From<Color> over 17^4 channel tuples".to_string());
         let ch: Vec<u8> = (0..17).map(|i| (i * 16).min(255) as u8).collect();
